@@ -51,12 +51,16 @@ static int pre_triple(const UChar *s, int n, int line1_arg, int last_arg, int de
 }
 /* W = the fold-point search window of write_text / fold_line (FOLDING_WINDOW in the current source): when folding without the
  * prefix protocol a segment must not be cut just before a semicolon, so runs of W or more semicolons need prefixing */
+#ifndef WRITER_PREFIX_LENGTH
+#define WRITER_PREFIX_LENGTH 2          /* "> " : the prefix write_text uses (PREFIX in ciffile.c; checked by the harnesses that see the source constant) */
+#endif
 static int pre_text(const UChar *s, int n, int len_arg, int fold, int prefix, int L, int version, int W) {
     struct wstats w = w_stats(s, n);
     if (n < 1 || len_arg != n) return 0;
     if (w.has_nlsemi && !prefix) return 0;                                 /* an embedded newline-semicolon needs the prefix protocol */
     if (fold && s[0] == ';' && !prefix) return 0;                          /* a folded field starting with ';' would put that ';' at the start of a line */
     if ((w.maxl > L || w.first >= L || w.reserved_start) && !fold) return 0; /* too-long lines and marker look-alikes need folding */
+    if (prefix && !fold && w.maxl + WRITER_PREFIX_LENGTH > L) return 0;      /* a prefixed line is longer than the line it carries */
     if (fold && !prefix && w.max_semi_run >= W) return 0;                    /* no admissible fold point near a long run of semicolons */
     return 1;
 }
